@@ -15,14 +15,16 @@ static void *worker(void *arg) {
     int t = (int)(intptr_t)arg;
     c17_ctx c;
     memset(&c, 0, sizeof c);
-    c.enc = malloc(16384);
-    c.enc2 = malloc(16384);
-    c.dec = malloc(256 * 8);
+    c.enc = malloc(C17_LARGE_BYTES);
+    c.enc2 = malloc(C17_LARGE_BYTES);
+    c.dec = malloc(C17_LARGE_BYTES);
     c.obs = malloc(C17_OBS_MAX);
     pthread_barrier_wait(&bar);
     for (int r = 0; r < ROUNDS; r++) {
-        for (int k = 0; k < C17_NOPS; k++) {
-            int oi = (t * 5 + k + r) % C17_NOPS;
+        /* every small operation each round; the large ones (12000-value inputs) every 10th round */
+        int nops = r % 10 == 0 ? C17_NALL : C17_NOPS;
+        for (int k = 0; k < nops; k++) {
+            int oi = (t * 5 + k + r) % nops;
             c.in = C17_IN[C17_OPS[oi].input];
             c.n = C17_INN[C17_OPS[oi].input];
             c.arg = C17_OPS[oi].arg;
@@ -39,6 +41,7 @@ static void *worker(void *arg) {
 
 int main(int argc, char **argv) {
     vh_init(argc, argv);
+    c17_init_inputs();
     ROUNDS = vh_thorough ? 200 : 50;
     if (vh_section_begin("free-running") && vh_case()) {
         pid_t pid = fork();
